@@ -423,6 +423,9 @@ func removeFromCollection(col ItemCollection, items ...Item) ItemCollection {
 		}
 		found := false
 		for _, it := range items {
+			if IsNil(it) {
+				continue
+			}
 			if ob.GetID().Equals(it.GetID(), false) {
 				found = true
 				break
@@ -457,8 +460,20 @@ func removeFromAudience(a *Activity, items ...Item) error {
 // Recipients performs recipient de-duplication on the Activity's To, Bto, CC and BCC properties
 func (a *Activity) Recipients() ItemCollection {
 	var alwaysRemove ItemCollection
-	if a.GetType() == BlockType && a.Object != nil {
-		alwaysRemove = append(alwaysRemove, a.Object)
+	if a.GetType() == BlockType && !IsNil(a.Object) {
+		if IsItemCollection(a.Object) {
+			// a list of blocked objects (a JSON array, even of one, is decoded to a list): none of them is addressed
+			_ = OnItemCollection(a.Object, func(col *ItemCollection) error {
+				for _, ob := range *col {
+					if !IsNil(ob) {
+						alwaysRemove = append(alwaysRemove, ob)
+					}
+				}
+				return nil
+			})
+		} else {
+			alwaysRemove = append(alwaysRemove, a.Object)
+		}
 	}
 	if len(alwaysRemove) > 0 {
 		_ = removeFromAudience(a, alwaysRemove...)
